@@ -59,7 +59,7 @@ CLAIMS = {
          "a committed one, without moving the frontiers: a nil error of ReadTx / ReadTxEntry implies txID <= committedTxID; the three Validate functions accept exactly the well-formed preconditions (non-empty key within maxKeyLen, TxID > 0); "
          "the three Check functions are true exactly when their defining predicate holds on the answer of the index they are given (KeyMustExist, KeyMustNotExist, "
          "KeyNotModifiedAfterTx incl. deleted/expired/unknown keys); checkPreconditions applies a transaction only if all preconditions were checked and hold; "
-         "hasPreconditions; database.ExecAll reaches its commit callback (which checks references against the live index) only while holding the database lock EXCLUSIVELY (typestate order rule). Far narrower than the property: linearizability over concurrent histories, the indexing gate under concurrency, snapshots of "
+         "hasPreconditions; database.ExecAll reaches its commit callback (which checks references against the live index) only while holding the database lock EXCLUSIVELY (typestate order rule). database.resolveValue resolves a reference through the same index (snapshot or live) the read was given (call-site assertion). Far narrower than the property: linearizability over concurrent histories, the indexing gate under concurrency, snapshots of "
          "pkg/database and reads of in-flight transactions are not decided.",
          "DESIGN.md 3 (C06)"),
  "C07": ("Commit-state functions of the replica path under value contracts: mayCommit moves the committed frontier exactly to the allowance, sets committedAlh "
